@@ -89,7 +89,9 @@ def read_octopus(filename_or_obj):
         dims=("time", "freq", "dir"),
         name="efth",
     ).to_dataset()
-    dset["efth"] = (ds.efth / (ds.spec.df * ds.spec.dd)).expand_dims("site", axis=1)
+    # Negative energy is the missing value written by to_octopus
+    efth = ds.efth.where(ds.efth >= 0)
+    dset["efth"] = (efth / (ds.spec.df * ds.spec.dd)).expand_dims("site", axis=1)
     dset["wspd"] = xr.DataArray(wspds, dims=("time",)).expand_dims("site", axis=1)
     dset["wdir"] = xr.DataArray(wdirs, dims=("time",)).expand_dims("site", axis=1)
 
